@@ -320,7 +320,16 @@ class CompanionEnv(Env):
 
         self.conn = CompanionConnection(asyncio.get_event_loop(), "10.0.0.2", 2222)
         self.conn.connection_made(FakeTransport(on_write, env))
-        self.proto = CompanionProtocol(self.conn, None, Service())
+        # the transaction counter starts at a random value; ["xid0", k] in the script makes that value k
+        import pyatv.protocols.companion.protocol as cp
+        start = [op[1] for op in self.script if op[0] == "xid0"]
+        real_randint = cp.randint
+        if start:
+            cp.randint = lambda a, b: start[0]
+        try:
+            self.proto = CompanionProtocol(self.conn, None, Service())
+        finally:
+            cp.randint = real_randint
 
         class L:
             def event_received(self, event_name, data):
@@ -522,7 +531,7 @@ async def drive_multi(transport, scripts, order):
         await settle()
         return True
 
-    ops = [[list(o) for o in sc if o[0] != "listeners"] for sc in scripts]
+    ops = [[list(o) for o in sc if o[0] not in ("listeners", "xid0")] for sc in scripts]
     pos = [0] * len(scripts)
     order = list(order)
     seq = [0]
@@ -635,7 +644,7 @@ def retag(script, off):
 
 
 def merge_order(kind, scripts, rng=None):
-    n = [len([o for o in sc if o[0] != "listeners"]) for sc in scripts]
+    n = [len([o for o in sc if o[0] not in ("listeners", "xid0")]) for sc in scripts]
     if kind == "seq":                      # object 0 completely, then object 1, ...
         return [k for k in range(len(n)) for _ in range(n[k])]
     if kind == "rr":                       # strictly alternating
@@ -738,6 +747,13 @@ class Case:
         m = me["m"]
         if m.get("for") is not None:
             return m["for"]
+        if self.t == "companion" and m.get("kind") == "resp" and m.get("xid") is not None \
+                and m.get("ft", 8) in (7, 8, 9):
+            # a Response that literally carries the transaction id of an OPACK request is its answer
+            for w in self.req_at:
+                if "auth" not in self.req_opts[w] and self.obs["wire"].get(str(w)) == m["xid"]:
+                    return w
+            return None
         k = self.key_of_msg(m)
         if k is None:
             return None
@@ -1140,13 +1156,18 @@ def unsol_msg(t, rng, tag, variant=0, xfor=None, ukind=None):
 
 
 def build(t, base, timeout_w=None, timeout_pos=None, unsol_pos=None, variant=0, rng=None, xfor=None, ukind=None,
-          reuse=None, fault=None, send_pos=None, eresp_pos=None, eresp_em=True):
+          reuse=None, fault=None, send_pos=None, eresp_pos=None, eresp_em=True, umsg=None, auth=None, xid0=None):
     """base: list of ("q", i) / ("a", i).  Returns a script."""
     script = []
+    if xid0 is not None:
+        script.append(["xid0", xid0])
+    auth = auth or {}
     tag = 1
     k = 0
     for pos, (kind, i) in enumerate(base + [("end", 0)]):
-        if unsol_pos == pos:
+        if unsol_pos == pos and umsg is not None:
+            script.append(["msg", [dict(umsg)]])
+        elif unsol_pos == pos:
             if not (t == "http" and _http_busy(script)):
                 script.append(["msg", [unsol_msg(t, rng, 90, variant, xfor, ukind)]])
         if timeout_pos == pos:
@@ -1164,6 +1185,8 @@ def build(t, base, timeout_w=None, timeout_pos=None, unsol_pos=None, variant=0, 
             opts = {}
             if fault is not None and fault[0] == i:
                 opts["fault"] = fault[1]
+            if i in auth:
+                opts["auth"] = auth[i]
             if t != "rtsp":
                 opts["timeout"] = 3 if i == timeout_w else 50 + i
             if t == "mrp" and variant % 4 == 3 and i == 0:
@@ -1179,6 +1202,9 @@ def build(t, base, timeout_w=None, timeout_pos=None, unsol_pos=None, variant=0, 
             m = {"tag": 10 + i, "for": i}
             if t == "companion":
                 m["kind"] = "resp"
+                if i in auth:
+                    m["kind"] = "auth"
+                    m["ft"] = {3: 4, 5: 6}.get(auth[i], auth[i])
             if t == "mrp":
                 m["type"] = (1 if variant % 8 == 7 else 2) if (variant % 4 == 3 and i == 0) else (i % 2)
             script.append(["msg", [m]])
@@ -1235,6 +1261,19 @@ def exhaustive_scripts(t, nmax):
                             if t == "rtsp":
                                 continue
                             out.append(build(t, base, fault=(w, kind), timeout_w=w2, timeout_pos=apos))
+            if t == "companion" and n <= 2:
+                # the single map holds transaction ids AND auth frame types: the counter starts at 0..8 (so the
+                # ids run through 4 = PS_Next and 6 = PV_Next), a pair-setup / pair-verify exchange is outstanding
+                # together with OPACK requests, and a Response carrying id 4 / 6 or an unsolicited PS_Next /
+                # PV_Next frame arrives at every position
+                stray = [{"tag": 96, "kind": "resp", "ft": 8, "xid": 4}, {"tag": 96, "kind": "resp", "ft": 8, "xid": 6},
+                         {"tag": 97, "kind": "auth", "ft": 4}, {"tag": 97, "kind": "auth", "ft": 6}]
+                for x0 in range(9):
+                    for au in ({}, {0: 3}, {0: 5}, {n - 1: 4}, {n - 1: 6}):
+                        out.append(build(t, base, auth=au, xid0=x0))
+                        for um in stray:
+                            for up in range(L + 1):
+                                out.append(build(t, base, auth=au, xid0=x0, unsol_pos=up, umsg=um))
             if t == "companion":
                 # fire-and-forget send_opack of an event at every position, the device answering that event with
                 # a Response frame (error "No request handler", or a plain one) at every later position
@@ -1340,6 +1379,8 @@ def random_script(t, rng, nmax):
 
     if t == "mrp" and rng.random() < 0.7:
         script.append(["listeners", rng.choice(LSETS)])
+    if t == "companion" and rng.random() < 0.5:
+        script.append(["xid0", rng.randint(0, 8)])
     pending_events = []
     steps = rng.randint(n, 3 * n + 4)
     nreq = 0
@@ -1430,7 +1471,7 @@ def random_script(t, rng, nmax):
                     {"tag": m["tag"], "kind": "event", "ft": 8, "no_c": True},
                     {"tag": m["tag"], "kind": "other", "ft": 8, "t": 2},
                     {"tag": m["tag"], "kind": "other", "ft": 8},
-                    {"tag": m["tag"], "kind": "resp", "ft": 8, "xid": 5},
+                    {"tag": m["tag"], "kind": "resp", "ft": 8, "xid": rng.randint(0, 12)},
                     {"tag": m["tag"], "kind": "resp", "ft": 8},
                     {"tag": m["tag"], "kind": "event", "ft": 1},
                     {"tag": m["tag"], "kind": "auth", "ft": rng.choice((3, 4, 5, 6))},
